@@ -2533,7 +2533,13 @@ def _average(
 
     if weights is None:
         avg = a.mean(axis, keepdims=keepdims)
-        scl = avg.dtype.type(a.size / avg.size)
+        if is_masked:
+            # the number of UNMASKED elements, as in numpy.ma.average
+            from dask.array.ma import count
+
+            scl = count(a, axis=axis, keepdims=keepdims).astype(avg.dtype)
+        else:
+            scl = avg.dtype.type(a.size / avg.size)
     else:
         wgt = asanyarray(weights)
 
